@@ -173,6 +173,9 @@ func drawCase(t *rapid.T) hsCase {
 		case 0:
 			return 0
 		case 1:
+			if hx.Thorough() || gen.OneIn(t, name+"huge", 10) {
+				return rapid.IntRange(40001, 200*1024).Draw(t, name+"huge")
+			}
 			return rapid.IntRange(16385, 40000).Draw(t, name+"big")
 		default:
 			return rapid.IntRange(1, 3000).Draw(t, name)
